@@ -141,6 +141,11 @@ def template_programs():
         out.append(('doc-dynamic-after/%d' % i, raising + trig + '\n'))
     out.append(('docattr', '"""module docstring"""\ndef documented():\n    """function docstring"""\n    return documented.__doc__\n'))
     out.append(('docname', '"""module docstring"""\nprint(__doc__)\n"another literal"\n'))
+    # __doc__ mentioned only as a target: an augmented assignment still reads it, the documentation speaks of *use*
+    out.append(('doc-augassign', '"""module docstring"""\n__doc__ += " and more"\n"another literal"\n'))
+    out.append(('doc-attr-augassign', 'def documented():\n    """function docstring"""\ndocumented.__doc__ += " and more"\nclass Documented:\n    """class docstring"""\nDocumented.__doc__ %= ()\n'))
+    out.append(('doc-store', '"""module docstring"""\n"another literal"\n__doc__ = "replaced"\n'))
+    out.append(('doc-del', '"""module docstring"""\n"another literal"\ndel __doc__\n'))
     out.append(('docplain', '"""module docstring"""\ndef documented():\n    """function docstring"""\nclass Documented:\n    """class docstring"""\n'))
     return out
 
